@@ -19,12 +19,16 @@ LIST="$*"
 [ -n "$LIST" ] || LIST="C01 C02 C03 C04 C05 C06 C07 C08 C09 C10 C11 C12 C13 C14 C15 C16 C17 C18 C19 C20"
 mkdir -p /tmp/trymutant_ev$$
 cp bin/sunlint /tmp/trymutant_ev$$/sunlint
-for c in $LIST; do
-	out=$(. ./env.sh; /tmp/trymutant_ev$$/sunlint -repo $R -property $c -tier quick -evidence /tmp/trymutant_ev$$ 2>&1)
-	if echo "$out" | grep -q "^VIOLATION"; then
-		echo "$c FAILS: $(echo "$out" | grep -E '^(VIOLATED|UNDECIDED)' | cut -c1-260 | head -3 | tr '\n' '|')"
-	fi
-done
+T=/tmp/trymutant_ev$$
+cat > $T/one.sh <<EOS
+c=\$1
+out=\$(. ./env.sh; $T/sunlint -repo $R -property \$c -tier quick -evidence $T/\$c 2>&1)
+if echo "\$out" | grep -q "^VIOLATION"; then
+	echo "\$c FAILS: \$(echo "\$out" | grep -E '^(VIOLATED|UNDECIDED)' | cut -c1-260 | head -3 | tr '\\n' '|')"
+fi > $T/\$c.out
+EOS
+printf '%s\n' $LIST | xargs -P 6 -n 1 sh $T/one.sh
+for c in $LIST; do cat $T/$c.out 2>/dev/null; done
 git -C $R reset -q --hard HEAD; git -C $R clean -fdq 2>/dev/null
 rm -rf /tmp/trymutant_ev$$
 echo "done $P"
